@@ -12,6 +12,10 @@ import (
 	gossh "golang.org/x/crypto/ssh"
 )
 
+// maxBeforeContext limits the before context, which the reader keeps in a
+// buffered channel of that capacity.
+const maxBeforeContext = 1000000
+
 // Args is a helper struct to summarize common client arguments.
 type Args struct {
 	lcontext.LContext
@@ -151,6 +155,9 @@ func setOption(key, val string, options map[string]string, ltx *lcontext.LContex
 		iVal, err := strconv.Atoi(val)
 		if err != nil {
 			return options, err
+		}
+		if iVal > maxBeforeContext {
+			return options, fmt.Errorf("before context %d exceeds maximum %d", iVal, maxBeforeContext)
 		}
 		ltx.BeforeContext = iVal
 	case "after":
